@@ -927,6 +927,8 @@ def probe_eval(d):
 
     if kind == 'contract':
         return _contract(d)
+    if kind == 'alias-pool':
+        return _alias_pool_eval(d)
     if kind == 'admm-vs-simple':
         L = _pop(d['op'])
         f, g = _pf(d['f'], L.domain), _pf(d['g'], L.range)
@@ -1606,6 +1608,202 @@ def _contract_probes(rng, count):
     return out
 
 
+# ------------------------------------------------ functional pool x aliased proximal call sites
+_ALIAS_COV = {}
+
+
+def _pool(space_kind):
+    """(space, [(name, constructor)]) : members covering every proximal factory reachable from odl.solvers"""
+    import odl
+    S = odl.solvers
+    inf = float('inf')
+    if space_kind == 'rn':
+        X = odl.rn(3)
+        pr, c = X.element([1., 2., 0.5]), X.element([0.5, -1., 0.25])
+    elif space_kind == 'power':
+        X = odl.ProductSpace(odl.rn(2), 2)
+        pr, c = X.element([[1., 2.], [0.5, 1.5]]), X.element([[0.5, -1.], [0.25, 1.]])
+    else:
+        X = odl.ProductSpace(odl.ProductSpace(odl.rn(2), 2), 2)
+        pr = c = None
+    m = []
+    if space_kind in ('rn', 'power'):
+        m += [('L1Norm', lambda: S.L1Norm(X)), ('L2Norm', lambda: S.L2Norm(X)), ('L2NormSquared', lambda: S.L2NormSquared(X)),
+              ('LpNorm(inf)', lambda: S.LpNorm(X, inf)), ('ZeroFunctional', lambda: S.ZeroFunctional(X)),
+              ('ConstantFunctional', lambda: S.ConstantFunctional(X, 2.0)), ('IndicatorBox', lambda: S.IndicatorBox(X, -1, 2)),
+              ('IndicatorNonnegativity', lambda: S.IndicatorNonnegativity(X)), ('IndicatorZero', lambda: S.IndicatorZero(X)),
+              ('IndicatorLpUnitBall(1)', lambda: S.IndicatorLpUnitBall(X, 1)), ('IndicatorLpUnitBall(2)', lambda: S.IndicatorLpUnitBall(X, 2)),
+              ('IndicatorLpUnitBall(inf)', lambda: S.IndicatorLpUnitBall(X, inf)),
+              ('KullbackLeibler', lambda: S.KullbackLeibler(X, prior=pr)),
+              ('KullbackLeibler.convex_conj', lambda: S.KullbackLeibler(X, prior=pr).convex_conj),
+              ('KullbackLeiblerCrossEntropy', lambda: S.KullbackLeiblerCrossEntropy(X, prior=pr)),
+              ('KullbackLeiblerCrossEntropy.convex_conj', lambda: S.KullbackLeiblerCrossEntropy(X, prior=pr).convex_conj),
+              ('Huber', lambda: S.Huber(X, 0.5)), ('Huber.convex_conj', lambda: S.Huber(X, 0.5).convex_conj),
+              ('IndicatorSimplex', lambda: S.IndicatorSimplex(X)), ('IndicatorSumConstraint', lambda: S.IndicatorSumConstraint(X)),
+              ('FunctionalQuadraticPerturb(L1)', lambda: S.FunctionalQuadraticPerturb(S.L1Norm(X), quadratic_coeff=0.5, linear_term=c)),
+              ('FunctionalQuadraticPerturb(KL)', lambda: S.FunctionalQuadraticPerturb(S.KullbackLeibler(X, prior=pr), quadratic_coeff=0.25)),
+              ('L1Norm.translated', lambda: S.L1Norm(X).translated(c)), ('L2Norm.translated', lambda: S.L2Norm(X).translated(c)),
+              ('Huber.translated', lambda: S.Huber(X, 0.5).translated(c)),
+              ('2*L1Norm', lambda: 2.0 * S.L1Norm(X)), ('L1Norm*2', lambda: S.L1Norm(X) * 2.0),
+              ('0.5*L2Norm', lambda: 0.5 * S.L2Norm(X)), ('QuadraticForm(linear)', lambda: S.QuadraticForm(vector=c, constant=1.0))]
+    if space_kind == 'power':
+        m += [('GroupL1Norm(exponent=2)', lambda: S.GroupL1Norm(X)), ('GroupL1Norm(exponent=1)', lambda: S.GroupL1Norm(X, exponent=1)),
+              ('GroupL1Norm(2).translated', lambda: S.GroupL1Norm(X).translated(c)), ('3*GroupL1Norm(2)', lambda: 3.0 * S.GroupL1Norm(X)),
+              ('IndicatorGroupL1UnitBall(2)', lambda: S.IndicatorGroupL1UnitBall(X)),
+              ('SeparableSum(L1Norm, 2)', lambda: S.SeparableSum(S.L1Norm(X[0]), 2)),
+              ('SeparableSum(L1Norm, L2NormSquared)', lambda: S.SeparableSum(S.L1Norm(X[0]), S.L2NormSquared(X[1]))),
+              ('SeparableSum(KullbackLeibler, IndicatorBox)', lambda: S.SeparableSum(S.KullbackLeibler(X[0]), S.IndicatorBox(X[1], 0, 1))),
+              ('SeparableSum(L2Norm, Huber)', lambda: S.SeparableSum(S.L2Norm(X[0]), S.Huber(X[1], 0.5)))]
+    if space_kind == 'matrix':
+        m += [('NuclearNorm', lambda: S.NuclearNorm(X)), ('2*NuclearNorm', lambda: 2.0 * S.NuclearNorm(X)),
+              ('NuclearNorm.convex_conj', lambda: S.NuclearNorm(X).convex_conj),
+              ('L1Norm', lambda: S.L1Norm(X)), ('L2NormSquared', lambda: S.L2NormSquared(X))]
+    return X, m
+
+
+def _alias_safe(f):
+    """the same functional with proximals that NEVER see out aliased to the input (they work on a copy)"""
+    import odl
+
+    class SafeProx(odl.Operator):
+        def __init__(self, inner):
+            super(SafeProx, self).__init__(inner.domain, inner.range, linear=False)
+            self.inner = inner
+
+        def _call(self, x, out=None):
+            res = self.inner(x.copy())
+            if out is None:
+                return res
+            out.assign(res)
+
+    class Safe(odl.solvers.Functional):
+        def __init__(self, g):
+            super(Safe, self).__init__(g.domain, linear=False)
+            self.g = g
+
+        def _call(self, x):
+            return self.g(x)
+
+        @property
+        def gradient(self):
+            return self.g.gradient
+
+        @property
+        def proximal(self):
+            return lambda sigma: SafeProx(self.g.proximal(sigma))
+
+        @property
+        def convex_conj(self):
+            return Safe(self.g.convex_conj)
+
+    return Safe(f)
+
+
+def _pool_start(X, seed):
+    import odl
+    r = np.random.RandomState(seed)
+
+    def mk(sp):
+        if isinstance(sp, odl.ProductSpace):
+            return sp.element([mk(si) for si in sp])
+        return sp.element(r.randint(-3, 4, sp.shape) + r.choice([0.0, 0.5], sp.shape))
+    return mk(X)
+
+
+# (solver, operator symbol of the aliased call) -> which argument is drawn from the pool
+ALIAS_SLOTS = {('admm_linearized', 'f.proximal(tau)'): 'f', ('doubleprox_dc', 'f.proximal(gamma)'): 'f',
+               ('doubleprox_dc', 'g.convex_conj.proximal(mu)'): 'g', ('prox_dca', 'f.proximal(gamma)'): 'f',
+               ('douglas_rachford_pd', 'g[i].convex_conj.proximal(sigma[i])'): 'g',
+               ('douglas_rachford_pd_l', 'l[i].convex_conj.proximal(sigma[i])'): 'l'}
+
+
+def _alias_pool_eval(d):
+    """One aliased proximal call site x one pool member: the solver run with the member in that slot gives the same
+    iterates as the run where every proximal works on a copy of its input (never aliased) -- and, where a plain
+    reference implementation ships, as the reference.  Returns (ok, observed, expected); a member without the
+    needed proximal is skipped (ok, 'skipped')."""
+    import odl
+    from odl.solvers.nonsmooth.admm import admm_linearized, admm_linearized_simple
+    from odl.solvers.nonsmooth.difference_convex import doubleprox_dc, doubleprox_dc_simple, prox_dca
+    from odl.solvers.nonsmooth.douglas_rachford import douglas_rachford_pd
+    S = odl.solvers
+    X, members = _pool(d['space'])
+    F = dict(members)[d['member']]()
+    N, sv, slot = d['niter'], d['solver'], d['slot']
+    x0 = _pool_start(X, d['seed'])
+    I = odl.IdentityOperator(X)
+    sq = S.L2NormSquared(X)
+
+    def run(fn, member, simple=False):
+        tr = []
+        cb = lambda v: tr.append(_flat(v))
+        x = x0.copy()
+        if sv == 'admm_linearized':
+            (admm_linearized_simple if simple else admm_linearized)(x, member, sq, I, 0.25, 1.0, N, callback=cb)
+        elif sv == 'doubleprox_dc':
+            y = X.zero()
+            f_, g_ = (member, sq) if slot == 'f' else (sq, member)
+            if simple:
+                for j in range(1, N + 1):
+                    x, y = x0.copy(), X.zero()
+                    doubleprox_dc_simple(x, y, f_, 0.5 * sq, g_, I, j, 0.25, 0.25)
+                    tr.append(np.concatenate([_flat(x), _flat(y)]))
+            else:
+                doubleprox_dc(x, y, f_, 0.5 * sq, g_, I, N, 0.25, 0.25,
+                              callback=lambda v: tr.append(np.concatenate([_flat(v), _flat(y)])))
+        elif sv == 'prox_dca':
+            prox_dca(x, member, 0.5 * sq, N, 0.25, callback=cb)
+        else:
+            kw = {'l': [member]} if slot == 'l' else {}
+            g_ = [S.L1Norm(X)] if slot == 'l' else [member]
+            douglas_rachford_pd(x, sq, g_, [I], N, tau=0.5, sigma=[0.5], callback=cb, **kw)
+        tr.append(np.concatenate([_flat(x), _flat(y)]) if sv == 'doubleprox_dc' else _flat(x))
+        return tr
+
+    try:
+        want = run(None, _alias_safe(F))
+    except Exception as e:          # the member has no (conjugate) proximal, or it fails un-aliased (not C11's subject)
+        return True, 'skipped: %s' % type(e).__name__, None
+    key = (sv, [k[1] for k in ALIAS_SLOTS if k[0] == (sv if slot != 'l' else sv + '_l') and ALIAS_SLOTS[k] == slot][0])
+    _ALIAS_COV.setdefault('%s : %s' % key, set()).add('%s/%s' % (d['space'], d['member']))
+    got = run(None, F)
+    sc = _scale(*want)
+    ok = len(got) == len(want) and all(_close(a, b, sc) for a, b in zip(got, want))
+    if ok and sv in ('admm_linearized', 'doubleprox_dc'):
+        ref = run(None, F, simple=True)
+        cmp_ = got
+        ok = len(ref) == len(cmp_) and all(_close(a, b, sc) for a, b in zip(cmp_, ref))
+        if not ok:
+            return False, {'optimised': [g.tolist() for g in cmp_]}, {'reference': [r.tolist() for r in ref]}
+    return ok, {'aliased': [g.tolist() for g in got]}, {'proximals on copies': [w.tolist() for w in want]}
+
+
+def _alias_pool_probes(niter=2):
+    """every aliased proximal call site found in the regenerated programs x every pool member x every space kind"""
+    sites = []
+    for sv, sym, _buf in TS.alias_sites():
+        if (sv, sym) in ALIAS_SLOTS and (sv, sym) not in sites:
+            sites.append((sv, sym))
+    out = []
+    for sv, sym in sites:
+        slot = ALIAS_SLOTS[(sv, sym)]
+        for kind in ('rn', 'power', 'matrix'):
+            for name, _ in _pool(kind)[1]:
+                d = {'kind': 'alias-pool', 'solver': sv.replace('_l', '') if sv.endswith('_pd_l') else sv, 'slot': slot,
+                     'space': kind, 'member': name, 'niter': niter, 'seed': 1 + len(out) % 5}
+                out.append((d, 'alias-pool-%s-%s=%s-on-%s' % (d['solver'], slot, name, kind)))
+    return out, sites
+
+
+def extra_coverage():
+    sites = TS.alias_sites()
+    return {'aliased_proximal_call_sites': ['%s : %s (out = %s)' % s_ for s_ in sites],
+            'unmapped_aliased_call_sites': ['%s : %s' % (a, b) for a, b, _ in sites
+                                            if (a, b) not in ALIAS_SLOTS and not a.startswith('douglas_rachford_pd_')
+                                            and a != 'douglas_rachford_pd_noops'],
+            'pool_members_exercised_per_site': {k: sorted(v) for k, v in sorted(_ALIAS_COV.items())}}
+
+
 def _inner_step(v, ran):
     """inner step size of adupdates: a float, or ['list'|'array'|'element', values] (np.isscalar false)"""
     if isinstance(v, (list, tuple)):
@@ -1802,6 +2000,11 @@ def probes(rng, tier):
             ok, det = False, {'raised': '%s: %s' % (type(e).__name__, str(e)[:300])}
         out.append(C.Probe(bool(ok), key, what, _replay(d), det))
 
+    # every aliased proximal call site x the whole functional pool (all space kinds)
+    _ALIAS_COV.clear()
+    for d, key in _alias_pool_probes(2 if tier == 'quick' else 3)[0]:
+        add(d, key, 'solver with this functional in the aliased-proximal slot = the same run with proximals working on '
+                    'copies (= the shipped reference where there is one)')
     # contract family: NumPy transcription incl. nonlinear operators, unchanged inputs, same objects on continuation
     for d, key in _contract_probes(rng, 45 * reps):
         add(d, key, 'iterates = NumPy transcription of the documented iteration; no argument but x is modified; '
@@ -1967,6 +2170,14 @@ def search(rng, broken):
     it names.  Returns the first failing probe (a concrete replay) or None."""
     known = C.load_findings(PID)
     kinds = []
+    # whatever broke: every aliased proximal call site x the functional pool
+    try:
+        for dd, key in _alias_pool_probes(3)[0]:
+            p = _try(dd, key, 'aliased proximal call site x functional pool')
+            if not p.ok and p.key not in known:
+                return p
+    except C.TranslateError:
+        pass
     # whatever broke (also a translator that failed closed): the contract family at the thorough volume
     for dd, key in _contract_probes(rng, 45 * 6):
         p = _try(dd, key, 'contract of the solver: NumPy transcription, unchanged inputs, continuation with the same objects')
